@@ -1,8 +1,7 @@
+\* MUST FAIL (InvStillAttached): fusing a branch into the trunk moves the trunk edge past the sibling branches of that side.
 \* Universe P: ratio limit 3 on a 10x10 die; trunks 4x5 / 1x1 at (2,2), (2,7), (5,2), (5,7) (a 1x1 module fits the notch
 \* left by a 3x1 branch on the 4-wide side), up to two modules and two branches (3x1, 1x1, 1x2, flush with either end),
 \* all kinds; thresholds as in ModelWrapper.solve (turn off <= 1/10, fuse > 1 - 1/20); hard modules left alone (SKIPHARD).
-\* Starting points: the netlist's configuration and every legal single-edit neighbour (CHAIN).
-\* InvNoOverlap and InvStillAttached are NOT guaranteed by the loops (see LegalPost_mc_fails.cfg, LegalPost_mc_fails2.cfg).
 SPECIFICATION PSpec
 CONSTANTS
   DW = 10
@@ -32,9 +31,5 @@ CONSTANTS
   FUSD = 20
   SKIPHARD = TRUE
   EMIT = FALSE
-INVARIANT InvStartLegal
-INVARIANT InvHardKept
-INVARIANT InvTrunkKept
-INVARIANT InvCovered
-INVARIANT InvAreaWithin
+INVARIANT InvStillAttached
 CHECK_DEADLOCK FALSE
